@@ -456,3 +456,62 @@ func wideCases(prefix string) []cases.ScanCase {
 	}
 	return out
 }
+
+// tagChainCases: chains of 1..3 annotated tags ending at an otherwise unnamed tree (holding the biggest blob
+// and the deepest path), at the root tree of a walked commit, at a blob or at a commit; references to the
+// outermost tag only, to every tag with the outermost enumerated first, and with the innermost first.
+func tagChainCases(prefix string) []cases.ScanCase {
+	var out []cases.ScanCase
+	for depth := 1; depth <= 3; depth++ {
+		for _, target := range []string{"tree", "roottree", "blob", "commit"} {
+			for _, place := range []string{"outermost-only", "outer-first", "inner-first"} {
+				if depth == 1 && place != "outermost-only" {
+					continue
+				}
+				var g model.Graph
+				names := map[int][]byte{1: []byte("big.bin"), 2: []byte("dir"), 3: []byte("deep.txt"), 4: []byte("README"), 5: []byte("sub dir")}
+				g.Blobs = []int{5, 700, 9}
+				g.Trees = [][]model.Entry{
+					{{K: "file", To: 3, N: 3, NL: 8}},                                                                  // t1: dir
+					{{K: "file", To: 2, N: 1, NL: 7}, {K: "tree", To: 1, N: 2, NL: 3}, {K: "tree", To: 1, N: 5, NL: 7}}, // t2: reached through tags only
+					{{K: "file", To: 1, N: 4, NL: 6}},                                                                  // t3: root tree of c1
+				}
+				g.Commits = []model.Commit{{Tree: 3, Parents: []int{}}}
+				tk, to := "t", 2
+				switch target {
+				case "roottree":
+					tk, to = "t", 3
+				case "blob":
+					tk, to = "b", 2
+				case "commit":
+					tk, to = "c", 1
+				}
+				g.Tags = append(g.Tags, model.Tag{TK: tk, To: to, Size: 150})
+				for d := 2; d <= depth; d++ {
+					g.Tags = append(g.Tags, model.Tag{TK: "g", To: d - 1, Size: 150 + d})
+				}
+				g.Normalize()
+				roots := []cases.RootSpec{{O: model.Oid{K: "c", I: 1}, Walk: true, IsRef: true, Name: "refs/heads/main", Kind: "plain"}}
+				for d := depth; d >= 1; d-- {
+					if place == "outermost-only" && d != depth {
+						continue
+					}
+					name := fmt.Sprintf("refs/tags/%c-level%d", 'a'+(depth-d), d) // outermost sorts first
+					if place == "inner-first" {
+						name = fmt.Sprintf("refs/tags/%c-level%d", 'a'+d, d)
+					}
+					roots = append(roots, cases.RootSpec{O: model.Oid{K: "g", I: d}, Walk: true, IsRef: true, Name: name, Kind: "plain"})
+				}
+				sort.SliceStable(roots, func(i, j int) bool { return roots[i].Name < roots[j].Name })
+				for _, style := range []string{"full", "hash"} {
+					if style == "hash" && place != "outermost-only" {
+						continue
+					}
+					out = append(out, cases.ScanCase{ID: fmt.Sprintf("%s-tagchain-%d-%s-%s-%s", prefix, depth, target, place, style), G: g, Names: names,
+						Style: style, Family: "tagchain", Roots: roots})
+				}
+			}
+		}
+	}
+	return out
+}
